@@ -3,7 +3,7 @@
 patch=$(realpath $1); shift
 git -C /repo apply "$patch" || exit 9
 for pid in "$@"; do
-  timeout 900 ./check $pid 2>&1 | grep -E "VIOLATION|UNDECIDED|CHECKER-ERROR|KNOWN|tier=" | cut -c1-330
+  PYVC_SCRATCH_EVIDENCE=1 timeout 1800 ./check $pid 2>&1 | grep -E "VIOLATION|UNDECIDED|CHECKER-ERROR|KNOWN|tier=" | cut -c1-330
 done
 git -C /repo checkout -- .
 git -C /repo status --short | head -3
